@@ -565,6 +565,7 @@ type replGenState struct {
 	nextCmd  int
 	leader   int // node of the most recent install
 	installs int
+	ready    []bool // generator's own guess: the node's last install probably succeeded
 }
 
 func (s *replGenState) all(c byte) string { return strings.Repeat(string(c), s.n) }
@@ -690,9 +691,34 @@ func (s *replGenState) bump() replAuth {
 	return a
 }
 
+// heal: a clean leader change (term bump, every up voter answers everything)
+func (s *replGenState) heal() {
+	g := s.g
+	node := s.pickNode(true)
+	a := s.top
+	if a.e == 0 {
+		a = replAuth{1, 0, 1}
+	}
+	a.t++
+	if o, seen := s.owner[a]; seen && o != node {
+		a.t++
+	}
+	s.owner[a] = node
+	g.Count("install:heal")
+	if s.up[node-1] {
+		s.last[node-1] = a
+		s.top = a
+		s.leader = node
+		s.ready[node-1] = true
+	}
+	s.installs++
+	g.Op("install", "%d %d %d %d 0 %d %s %s", node, a.e, a.t, a.f, s.q, s.all('1'), s.all('D'))
+}
+
 func (s *replGenState) install(node int) {
 	g := s.g
 	var a replAuth
+	lowered := false
 	kind := g.R.Pick(100-s.p.pStaleAuth-s.p.pEqualAuth, s.p.pEqualAuth, s.p.pStaleAuth)
 	switch {
 	case kind == 1 && s.last[node-1] != (replAuth{}):
@@ -715,6 +741,7 @@ func (s *replGenState) install(node int) {
 			}
 		}
 		g.Count("install:lower-or-old-authority")
+		lowered = true
 	default:
 		a = s.bump()
 		g.Count("install:higher-authority")
@@ -748,7 +775,27 @@ func (s *replGenState) install(node int) {
 		g.Count("install:on-down-node")
 	}
 	s.installs++
-	g.Op("install", "%d %d %d %d %d %d %s %s", node, a.e, a.t, a.f, w, q, s.probeSpec(node), s.ackSpec(node))
+	probe := s.probeSpec(node)
+	resp := 0
+	for i := 0; i < s.n; i++ {
+		if s.up[i] && (probe[i] == '1' || probe[i] == 'p') {
+			resp++
+		}
+	}
+	ack := s.ackSpec(node)
+	if g.R.Chance(45) {
+		ack = s.all('D')
+	}
+	acks := 0
+	for i := 0; i < s.n; i++ {
+		if s.up[i] && ack[i] == 'D' {
+			acks++
+		}
+	}
+	if s.up[node-1] {
+		s.ready[node-1] = w == 0 && q == s.q && resp >= s.q && a.f != 0 && !lowered && acks >= s.q && ack[node-1] == 'D'
+	}
+	g.Op("install", "%d %d %d %d %d %d %s %s", node, a.e, a.t, a.f, w, q, probe, ack)
 }
 
 func cmpReplAuth(a, b replAuth) int {
@@ -766,8 +813,24 @@ func cmpReplAuth(a, b replAuth) int {
 func (s *replGenState) commit() {
 	g := s.g
 	node := s.leader
-	if node == 0 || g.R.Chance(10) {
+	if node == 0 || !s.ready[node-1] || !s.up[node-1] {
+		var cand []int
+		for i := range s.ready {
+			if s.ready[i] && s.up[i] {
+				cand = append(cand, i+1)
+			}
+		}
+		if len(cand) > 0 {
+			node = cand[g.R.Intn(len(cand))]
+		}
+	}
+	if node == 0 || g.R.Chance(8) {
 		node = s.pickNode(true)
+	}
+	if s.ready[node-1] && s.up[node-1] {
+		g.Count("commit:node-predicted-writable")
+	} else {
+		g.Count("commit:node-predicted-not-writable")
 	}
 	a := s.last[node-1]
 	if g.R.Chance(s.p.pWrongExpect) {
@@ -857,6 +920,7 @@ func replGenCase(g *Gen, p replGenParams) {
 		s.up[i] = true
 	}
 	s.last = make([]replAuth, s.n)
+	s.ready = make([]bool, s.n)
 	nops := g.R.Range(4, p.maxOps)
 	if s.n >= 2 && g.R.Chance(p.pScenario) {
 		// directed family: commits on a bare quorum, the leader goes away, a survivor takes over
@@ -865,6 +929,7 @@ func replGenCase(g *Gen, p replGenParams) {
 		a := s.bump()
 		s.owner[a] = l
 		s.last[l-1], s.top, s.leader = a, a, l
+		s.ready[l-1] = true
 		g.Op("install", "%d %d %d %d 0 %d %s %s", l, a.e, a.t, a.f, s.q, s.all('1'), s.all('D'))
 		for i, m := 0, g.R.Range(1, 3); i < m; i++ {
 			s.nextCmd++
@@ -879,6 +944,7 @@ func replGenCase(g *Gen, p replGenParams) {
 		if g.R.Chance(80) {
 			g.Op("crash", "%d", l)
 			s.up[l-1] = false
+			s.ready[l-1] = false
 		}
 		nl := s.pickNode(true)
 		s.install(nl)
@@ -888,8 +954,16 @@ func replGenCase(g *Gen, p replGenParams) {
 		case 0:
 			s.install(s.pickNode(true))
 		case 1:
-			if s.installs == 0 && g.R.Chance(90) {
-				s.install(s.pickNode(true))
+			anyReady := false
+			for j := range s.ready {
+				anyReady = anyReady || (s.ready[j] && s.up[j])
+			}
+			if !anyReady && g.R.Chance(90) {
+				if g.R.Chance(60) {
+					s.heal()
+				} else {
+					s.install(s.pickNode(true))
+				}
 			} else {
 				s.commit()
 			}
@@ -900,6 +974,7 @@ func replGenCase(g *Gen, p replGenParams) {
 				n := s.pickNode(true)
 				g.Op("crash", "%d", n)
 				s.up[n-1] = false
+				s.ready[n-1] = false
 			} else {
 				s.commit()
 			}
@@ -909,6 +984,10 @@ func replGenCase(g *Gen, p replGenParams) {
 				if !u {
 					downs = append(downs, j+1)
 				}
+			}
+			if len(downs) == 0 && !g.R.Chance(6) {
+				s.commit()
+				continue
 			}
 			n := s.pickNode(false)
 			if len(downs) > 0 && !g.R.Chance(5) {
